@@ -112,12 +112,18 @@ def spans_closure(U, res):
 def spans_binary_chunk(chunk, U, hists):
     res = common.Result()
     for (i, j) in chunk:
-        a, ra = spans_build(hists[i])
-        b, rb = spans_build(hists[j])
-        checks = [("+", a + b, ra | rb), ("-", a - b, ra - rb), ("&", a & b, ra & rb), ("copy", Spans(a), ra)]
-        a2, _ = spans_build(hists[i]); a2 += b
-        a3, _ = spans_build(hists[i]); a3 -= b
-        checks += [("+=", a2, ra | rb), ("-=", a3, ra - rb)]
+        try:
+            a, ra = spans_build(hists[i])
+            b, rb = spans_build(hists[j])
+            checks = [("+", a + b, ra | rb), ("-", a - b, ra - rb), ("&", a & b, ra & rb), ("copy", Spans(a), ra)]
+            a2, _ = spans_build(hists[i]); a2 += b
+            a3, _ = spans_build(hists[i]); a3 -= b
+            checks += [("+=", a2, ra | rb), ("-=", a3, ra - rb)]
+        except Exception as e:  # noqa  (an internal assertion of the class under test counts as a wrong answer)
+            res.count("transitions")
+            res.violation("spans-binary:raised:" + type(e).__name__, {"kind": "SpansBinary", "a": hists[i], "b": hists[j], "op": "build-or-operator"},
+                          "building the operands %r / %r or applying + - & += -= to them raised %r" % (hists[i], hists[j], e))
+            continue
         for name, got, want in checks:
             res.count("transitions")
             bad = spans_check(got, want, U)
